@@ -18,12 +18,12 @@ def isAlnum (c : Char) : Bool := c.isUpper || c.isLower || c.isDigit
 def isIdentChar (c : Char) : Bool := isAlnum c || c == '_'
 
 /-- `p` occurs in `t` as a contiguous substring (Rust `str::contains`). -/
-def isSub (p : Text) : Text → Bool
+def isSub {α : Type} [BEq α] (p : List α) : List α → Bool
   | [] => p.isEmpty
   | c :: t => p.isPrefixOf (c :: t) || isSub p t
 
 /-- Split at the first occurrence of `m` (Rust `str::split_once`). -/
-def splitOnce (m : Text) : Text → Option (Text × Text)
+def splitOnce {α : Type} [BEq α] (m : List α) : List α → Option (List α × List α)
   | [] => if m.isEmpty then some ([], []) else none
   | c :: t =>
     if m.isPrefixOf (c :: t) then some ([], (c :: t).drop m.length)
